@@ -270,6 +270,13 @@ func runS5(e *Env, cfg *RunCfg) {
 		e.Probes["torn_check_skipped_writer_in_flight"]++
 		return
 	}
+	// ... and every other transaction the server is still working on (a caller's
+	// Transact may have given up while its transaction is still being processed)
+	qdl := e.Now() + s.bound
+	e.RunUntil(func() bool { return e.Quiet() || e.Now() > qdl })
+	if e.Stopped() {
+		return
+	}
 	versions := map[string]map[string]bool{}
 	addVersions := func(st DBState) {
 		for tn, cols := range s.mc.tables {
@@ -298,6 +305,12 @@ func runS5(e *Env, cfg *RunCfg) {
 			}
 			e.Probes["rows_read_checked"]++
 			got := rr.row.Project(cols).String()
+			if len(versions[rr.table+"/"+rr.uuid]) == 0 {
+				// announced by the server but never committed (the server notifies before it
+				// commits): not a mix of two versions
+				e.Probes["row_read_never_committed"]++
+				continue
+			}
 			if !versions[rr.table+"/"+rr.uuid][got] {
 				var vs []string
 				for v := range versions[rr.table+"/"+rr.uuid] {
